@@ -1,4 +1,5 @@
 //! Property entry points of vh-rt.
+use proptest::prelude::*;
 use vcommon::{CaseInfo, CheckResult, Ctx, Report};
 
 use crate::{
@@ -147,6 +148,14 @@ pub fn run_c02(ctx: &Ctx) -> ! {
         check_c02,
     );
     rep.explore(
+        "braid_audit_spill",
+        "ladder worlds with 258-300 rungs (two strands, one merging with the other after every step): braids of > 256 commands \
+         and > 256 convergence points, i.e. both in-memory blocks spill; same oracle",
+        || (crate::world::strategies::spill_recipe(), scenario::script_strategy()).prop_map(|(recipe, sc)| Case { recipe, scripts: vec![sc], subset: 0 }),
+        ctx.pick(4, 120),
+        check_c02,
+    );
+    rep.explore(
         "braid_audit_medium",
         "same with <= 200 recipe steps and runs (braids of dozens to hundreds of commands)",
         || case_strategy(200, 2, 4, 1..2),
@@ -171,6 +180,13 @@ pub fn run_c03(ctx: &Ctx) -> ! {
          non-trivial = world has a branch and (a merge or a multi-head commit)",
         || case_strategy(40, 3, 1, 1..3),
         ctx.pick(2500, 100_000),
+        scenario::check_c03,
+    );
+    rep.explore(
+        "braid_spill",
+        "ladder worlds with 258-300 rungs: braids and convergence maps beyond their 256-entry in-memory blocks; same oracle",
+        || (crate::world::strategies::spill_recipe(), scenario::script_strategy()).prop_map(|(recipe, sc)| Case { recipe, scripts: vec![sc], subset: 0 }),
+        ctx.pick(4, 120),
         scenario::check_c03,
     );
     rep.explore(
